@@ -113,7 +113,15 @@ def read(path, how, group=None):
         with h5py.File(path, "r") as f:
             return Table.from_hdf5(f[group])
     if how == "load_table":
-        return load_table(path)
+        first = load_table(path)
+        if not first.is_empty() and len(str(path)) % 2:
+            # edit what was loaded, load again: the file has not changed
+            first.transform(lambda v, i, md: v * 2 + 1, axis="observation",
+                            inplace=True)
+            first.transform(lambda v, i, md: v * 2 + 1, axis="sample",
+                            inplace=True)
+            return load_table(path)
+        return first
     with h5py.File(path, "r") as f:
         if how == "parse_table":
             return parse_biom_table(f)
